@@ -4,6 +4,7 @@ import (
 	"encoding/json"
 	"fmt"
 	"io"
+	"net/http"
 	"os"
 	"path/filepath"
 	"strconv"
@@ -59,6 +60,8 @@ func setupLogging() {
 		logrus.SetOutput(os.Stderr)
 	}
 	logrus.StandardLogger().ExitFunc = simrt.ExitCurrentNode
+	// every HTTP client in jiva uses http.DefaultClient or &http.Client{Timeout}: both fall back to DefaultTransport
+	http.DefaultTransport = simrt.Transport{}
 }
 
 func TestSim(t *testing.T) {
@@ -67,6 +70,12 @@ func TestSim(t *testing.T) {
 		t.Skip("VERIF_MODE not set")
 	}
 	setupLogging()
+	if os.Getenv("VERIF_LOG") == "" {
+		// jiva's HTTP access log goes to os.Stdout: silence it
+		if dn, err := os.OpenFile(os.DevNull, os.O_WRONLY, 0); err == nil {
+			os.Stdout = dn
+		}
+	}
 	switch mode {
 	case "worker":
 		worker(t)
@@ -192,7 +201,6 @@ func replay(t *testing.T) {
 	}
 	jb, _ := json.Marshal(l)
 	out.Write(append(jb, '\n'))
-	fmt.Println(string(jb))
 }
 
 func victim(t *testing.T) { t.Skip("crashsim victim not built yet") }
